@@ -40,6 +40,17 @@ class Veto(Exception):
         self.count = count
 
 
+class VetoBase(BaseException):
+    """Raised by a hook according to the fault plan 'base': an interrupt-like exception (KeyboardInterrupt, SystemExit and
+    GeneratorExit are BaseExceptions but not Exceptions), which no 'except Exception' handler may swallow or react to."""
+
+    def __init__(self, kind, label, count):
+        super().__init__(kind, label, count)
+        self.kind = kind
+        self.label = label
+        self.count = count
+
+
 class Recorder:
     """Per-case object holding labels, the hook log and the active fault plan."""
 
@@ -58,6 +69,7 @@ class Recorder:
         self.once = set(plan.get("once", ()))
         self.persist = {(k, l) for k, l in plan.get("persist", ())}
         self.evict = {(k, l) for k, l in plan.get("evict", ())}
+        self.base = set(plan.get("base", ()))
 
     def hook(self, kind, node, arg):
         label = self.labels.label(node)
@@ -71,6 +83,9 @@ class Recorder:
         self.log.append([kind, label, arg_l])
         if self.take_snapshots:
             self.snaps.append(snap)
+        if self.count in self.base:
+            self.raised.append(self.count)
+            raise VetoBase(kind, label, self.count)
         if self.count in self.once or (kind, label) in self.persist:
             self.raised.append(self.count)
             raise Veto(kind, label, self.count)
@@ -207,6 +222,30 @@ def _name(label):
     return "n%s" % label
 
 
+LOCKED = [False]
+
+
+class LockNM(NodeMixin):
+    """A validating class that guards the tree through the public `parent` attribute itself (a property override that
+    delegates to NodeMixin's) instead of through the _pre_* hooks: while LOCKED[0] is set every re-parenting is refused."""
+
+    def __init__(self, name):
+        self.name = name
+
+    @property
+    def parent(self):
+        return NodeMixin.parent.fget(self)
+
+    @parent.setter
+    def parent(self, value):
+        if LOCKED[0]:
+            raise TreeError("the tree is locked")
+        NodeMixin.parent.fset(self, value)
+
+    def __repr__(self):
+        return "LockNM(%s)" % (self.name,)
+
+
 CLASSES = {
     # name: (factory(label) -> detached node, family, hooked)
     "HNM": (lambda l: HNM(_name(l)), "NM", True),
@@ -219,6 +258,10 @@ CLASSES = {
     "HSymlink": (lambda l: HSymlink(Node("target-of-%s" % l)), "NM", True),
     # links whose target is the previous node of the same universe (so link and target can sit in one tree and both have children)
     "HSymlinkU": (None, "NM", True),
+    # classes that get their hooks only after they were already in use (patched onto the class / set on each instance)
+    "HLateNM": (None, "NM", True),
+    "HLateLM": (None, "LM", True),
+    "HInstNM": (None, "NM", True),
     "SymlinkNodeU": (None, "NM", False),
     "Node": (lambda l: Node(_name(l)), "NM", False),
     "AnyNode": (lambda l: AnyNode(name=_name(l)), "NM", False),
@@ -227,6 +270,7 @@ CLASSES = {
     "SlotLM": (lambda l: _nodes.SlotLM(_name(l)), "LM", False),
     "DictLM": (lambda l: _nodes.DictLM(_name(l)), "LM", False),
     "LateSuperNM": (lambda l: _nodes.LateSuperNM(_name(l)), "NM", False),
+    "LockNM": (lambda l: LockNM(_name(l)), "NM", False),
 }
 NM_CLASSES = [k for k, v in CLASSES.items() if v[1] == "NM"]
 LM_CLASSES = [k for k, v in CLASSES.items() if v[1] == "LM"]
@@ -259,7 +303,37 @@ def snapshot(universe, labels):
     return [[labels.label(n.parent), [labels.label(c) for c in n.children]] for n in universe]
 
 
+HOOK_NAMES = ["_pre_detach", "_post_detach", "_pre_attach", "_post_attach", "_pre_detach_children", "_post_detach_children", "_pre_attach_children", "_post_attach_children"]
+
+
+def _late_universe(clsname, n):
+    """Nodes of a class that is defined WITHOUT hooks, used for a few link changes, and only then instrumented:
+    HLateNM/HLateLM get the hook methods assigned to the class, HInstNM gets a callable per instance and hook."""
+    base = LightNodeMixin if clsname == "HLateLM" else NodeMixin
+
+    def init(self, name):
+        self.name = name
+
+    cls = type(clsname, (base,), {"__init__": init, "__repr__": HookMix.__repr__, "separator": "/"})
+    nodes = [cls(_name(i)) for i in range(n)]
+    if n >= 2:
+        nodes[0].parent = nodes[1]
+        nodes[1].children = []
+        nodes[1].children = [nodes[0]]
+        del nodes[1].children
+    if clsname == "HInstNM":
+        for node in nodes:
+            for name in HOOK_NAMES:
+                setattr(node, name, (lambda arg, node=node, kind=name[1:]: _rec().hook(kind, node, arg)))
+    else:
+        for name in HOOK_NAMES:
+            setattr(cls, name, HookMix.__dict__[name])
+    return nodes
+
+
 def create_nodes(classes):
+    if classes and classes[0] in ("HLateNM", "HLateLM", "HInstNM"):
+        return _late_universe(classes[0], len(classes))
     universe = []
     for i, clsname in enumerate(classes):
         if clsname in ("HSymlinkU", "SymlinkNodeU"):
@@ -372,7 +446,7 @@ def _execute(universe, op):
             del node.children
         else:
             raise ValueError(kind)
-    except Exception as exc:  # noqa: BLE001 - the outcome is data for the oracles
+    except (Exception, VetoBase) as exc:  # noqa: BLE001 - the outcome is data for the oracles
         return exc
     return None
 
@@ -743,6 +817,7 @@ def history_strategy(max_nodes=7, max_steps=30, faults="none", invalid=False, cl
             readonly = st.just({"persist": [[h, i] for i in range(n) for h in ("pre_detach", "pre_attach")]})
             plans = [st.just({}), st.just({}), once, once, persist, readonly]
             if faults == "all+evict":
+                plans.append(st.integers(1, 14).map(lambda k: {"base": [k]}))
                 plans.append(st.lists(st.tuples(st.sampled_from(["pre_detach", "post_detach", "pre_attach", "post_attach", "pre_detach_children", "post_detach_children", "pre_attach_children", "post_attach_children"]), idx).map(list), min_size=1, max_size=2).map(lambda ps: {"evict": ps}))
             plan = st.one_of(*plans)
         steps = draw(st.lists(st.tuples(op, plan).map(lambda t: {"op": t[0], "plan": t[1]}), min_size=1, max_size=max_steps))
@@ -859,6 +934,9 @@ def enum_fault_cases(cls, n, index, count, fault_hooks=(), pairs=False, persist=
                     if kind in fault_hooks and isinstance(label, int):
                         yield dict(base, steps=[{"op": op, "plan": {"persist": [[kind, label]]}}])
             if evict:
+                # an interrupt-like BaseException from every hook position
+                for k in range(1, len(log0) + 1):
+                    yield dict(base, steps=[{"op": op, "plan": {"base": [k]}}])
                 for kind, label in seen:
                     if isinstance(label, int):
                         yield dict(base, steps=[{"op": op, "plan": {"evict": [[kind, label]]}}])
